@@ -535,6 +535,12 @@ func c15JudgeTcp(rep *c15Report, w *c15World, row c15TcpRow, u c15Unit, input st
 				"IDENTIFY with a nonsensical body size is not refused: the daemon allocated the buffer and kept the connection waiting; "+obs.MemNote)
 			return
 		}
+		if obs.End == "timeout" && len(obs.Frames) == 0 {
+			// whatever the daemon does with its memory: the size alone decides, nothing more is coming, and there is no refusal
+			mk("violation", "not-refused", "identify-huge-body-size",
+				fmt.Sprintf("IDENTIFY with a nonsensical body size is not refused: no answer and no close within %s of the size field (the peer sends nothing further); %s", c15Deadline, obs.MemNote))
+			return
+		}
 	}
 	if obs.End == "timeout" {
 		mk("inconclusive", "deadline", "deadline:"+row.key(), fmt.Sprintf("no answer and no close within %s", c15Deadline))
